@@ -127,3 +127,43 @@ Section DepCallP.
       apply existsb_exists in E. destruct E as [y [Hy E]]. apply String.eqb_eq in E. subst. contradiction.
   Qed.
 End DepCallP.
+
+Section DepBindP.
+  Variable F : Type.
+  Lemma lookup_kw_set (k k0 : string) (d : F) acc :
+    lookup k0 (kw_set k d acc) = if String.eqb k0 k then Some d else lookup k0 acc.
+  Proof.
+    induction acc as [|[k' d'] r IH]; cbn.
+    - destruct (String.eqb k0 k); reflexivity.
+    - destruct (String.eqb k k') eqn:E.
+      + apply String.eqb_eq in E. subst k'. cbn. destruct (String.eqb k0 k); reflexivity.
+      + cbn. destruct (String.eqb k0 k') eqn:E2.
+        * apply String.eqb_eq in E2. subst k'. rewrite String.eqb_sym, E. reflexivity.
+        * exact IH.
+  Qed.
+  (* each bound keyword holds ITS OWN dependence function: for distinct keyword names, key k is bound to exactly the function passed
+     under k if k is a parameter of the user function, and to nothing otherwise (earlier bindings of other keys are kept) *)
+  Lemma dep_bind_spec (sig : list string) (kwargs : list (string * F)) acc k :
+    NoDup (map fst kwargs) ->
+    lookup k (dep_bind sig kwargs acc) =
+      match lookup k kwargs with
+      | Some d => if existsb (String.eqb k) sig then Some d else lookup k acc
+      | None => lookup k acc
+      end.
+  Proof.
+    revert acc. induction kwargs as [|[k' d'] r IH]; intros acc ND; [reflexivity|].
+    inversion ND as [|? ? Hn ND']; subst. cbn [dep_bind lookup].
+    destruct (String.eqb k k') eqn:E.
+    - apply String.eqb_eq in E. subst k'.
+      assert (Hl : lookup k r = None).
+      { clear -Hn. induction r as [|[a b] r IH]; [reflexivity|]. cbn in *. destruct (String.eqb k a) eqn:E.
+        - apply String.eqb_eq in E. subst. exfalso. apply Hn. now left.
+        - apply IH. intro H. apply Hn. now right. }
+      destruct (existsb (String.eqb k) sig) eqn:Es; rewrite IH by exact ND'; rewrite Hl.
+      + rewrite lookup_kw_set, String.eqb_refl. reflexivity.
+      + reflexivity.
+    - destruct (existsb (String.eqb k') sig); rewrite IH by exact ND'.
+      + destruct (lookup k r); [destruct (existsb (String.eqb k) sig)|]; rewrite ?lookup_kw_set, ?E; reflexivity.
+      + reflexivity.
+  Qed.
+End DepBindP.
